@@ -1,16 +1,27 @@
 (* C03 — decode . encode . decode is stable: whatever decodes successfully can be encoded again (no error, no panic)
    and decodes to the same value.
-   Model / tie: as for C01 and C02 (Model.Codec, Gen.UaTypes, codecharness correspondence incl. the re-encoded bytes).
-   PROVED: (a) refutation of the full statement by a DateTime outside the int64-nanosecond range (known finding);
-           (b) C03_partial_fixpoint: in the reflection-driven fragment (+ GUID, LocalizedText) every well-formed value
-               that is its own normal form is re-encodable and decodes to itself, with any following bytes untouched;
-               decoded values of that fragment are such values unless a DateTime wrapped (validated by correspondence,
-               the lemma "decode only produces wf normal values" is NOT proved);
-           (c) the two repaired defects (rows 4, 5) on the model.
-   NOT PROVED: stability through NodeID, ExpandedNodeID, DiagnosticInfo, DataValue, Variant, ExtensionObject. *)
+   Model / tie: as for C01 and C02 (Model.Codec, Gen.UaTypes, codecharness correspondence incl. the re-encoded bytes);
+   rwf / rwf0 / rnorm / grid / desc_ok: Model.CodecWfAll.
+   PROVED:
+   (a) REFUTED twice: a DateTime outside the int64-nanosecond range (C03_refuted_datetime, known finding
+       datetime-out-of-range) and an extension object of a registered EMPTY struct type with a non-empty body
+       (C03_refuted_empty_extobj, known finding extobj-empty-struct: Value = &T{} re-encodes with body length 0, which
+       decodes to Value = nil);
+   (b) C03_decoded_wf (full quantifier: any registry and descriptor satisfying desc_ok, any nesting budget, any input of
+       at most MaxInt32 bytes): every successfully decoded value satisfies rwf0 (= rwf without the condition that
+       extension object bodies re-encode to 1 .. 2^32-2 bytes) and, if all its DateTimes are on the 100 ns grid
+       (grid: ReadTime did not wrap), is its own normal form;
+   (c) C03_partial_reencode: such a value that moreover satisfies rwf (i.e. additionally: its extension object bodies
+       re-encode to 1 .. 2^32-2 bytes) encodes again and the encoding followed by ANY bytes decodes to the same value
+       and leaves those bytes: all eight hand-written codecs, all descriptors, non-canonical masks, unknown ids;
+   (d) the two repaired defects (rows 4, 5) on the model.
+   NOT PROVED: that the hypothesis rwf of (c) can only fail in the empty-struct class of (a) (it would follow from
+   "the re-encoding is never longer than the bytes consumed", which is validated by the check on every decoded
+   value but not proved). *)
 From Coq Require Import NArith ZArith List Bool Lia.
 From Coq.Strings Require Import Byte.
-From Opcua Require Import Model.CodecTypes Model.Codec Model.CodecEq Model.CodecWf Proofs.CodecBase Proofs.CodecRoundtrip Proofs.CodecTotal Gen.UaTypes.
+From Opcua Require Import Model.CodecTypes Model.Codec Model.CodecEq Model.CodecWf Model.CodecWfAll Proofs.CodecBase Proofs.CodecRT
+  Proofs.CodecRoundtripAll Proofs.CodecDecWf Proofs.CodecTotal Gen.UaTypes.
 Import ListNotations.
 Open Scope Z_scope.
 
@@ -55,23 +66,73 @@ Theorem C03_datetime_unstable : stable_check (TCustom CVariant) (x0d :: datetime
                                 stable_check (TCustom CVariant) [x0d; x01; x00; x00; x00; x00; x00; x00; x00] = 2.
 Proof. vm_compute. split; reflexivity. Qed.
 
-(* PARTIAL: fixed points of the normalisation in the proved fragment are stable, whatever follows them *)
-Theorem C03_partial_fixpoint : forall reg t v, generic_ty t = true -> gwf t v = true -> norm t v = v ->
-  exists bs, encode reg t v = EOk bs /\
-    forall fuel rest, (1 <= fuel)%nat -> exists al, decode reg fuel t (bs ++ rest) = Ok v rest al.
+(* REFUTED (known finding C03 extobj-empty-struct): type id 121 ... is registered with an empty struct; with a one-byte
+   body the decoder returns Value = &T{} (run_sub drops the unread byte), Encode writes body length 0, and that decodes
+   to Value = nil *)
+Definition empty_struct_entry := find (fun r => match snd r with TStruct [] => true | _ => false end) gen_reg.
+Definition empty_extobj_witness : bytes :=
+  match empty_struct_entry with
+  | Some (ns, id, _) => [x01; x00] ++ le 2 id ++ [x01] ++ le 4 1 ++ [x00]
+  | None => []
+  end.
+Theorem C03_refuted_empty_extobj : stable_check (TCustom CExtObj) empty_extobj_witness = 2.
+Proof. vm_compute. reflexivity. Qed.
+
+Definition all_tys : list ty :=
+  all_structs ++ map TPtr all_structs ++ map snd variant_types ++ [xml_body_ty].
+
+(* side conditions of (b), (c) at what the code registers today *)
+Theorem C03_registry : reg_desc_ok gen_reg = true /\ forallb desc_ok all_tys = true.
+Proof. vm_compute. split; reflexivity. Qed.
+
+(* FULL (on inputs up to MaxInt32 bytes): what the decoder returns is well-formed (rwf0) and, on the 100 ns grid, normal *)
+Theorem C03_decoded_wf : forall reg fuel t bs v rest al,
+  reg_desc_ok reg = true -> desc_ok t = true -> blen bs <= max_int32 ->
+  decode reg fuel t bs = Ok v rest al ->
+  rwf0 reg t v = true /\ (grid v = true -> rnorm reg t v = v).
 Proof.
-  intros reg t v Hg Hw Hn. destruct (roundtrip_generic reg 0 t Hg v Hw) as [bs [E _]].
-  exists bs. split; [exact E|]. intros fuel rest Hf. destruct fuel as [|f]; [lia|].
-  destruct (roundtrip_generic reg f t Hg v Hw) as [bs' [E' [_ D]]]. rewrite E in E'. inversion E'; subst bs'.
-  rewrite Hn in D. apply D.
+  intros reg fuel t bs v rest al Hreg Ht Hs E. exact (proj1 (decode_wf reg Hreg fuel t Ht bs v rest al Hs E)).
 Qed.
 
-(* normalisation is idempotent on the primitive values: what a decode of an encoding returns is a fixed point *)
-Example C03_fixpoints_exist :
-  norm (TStruct [TTime; TFloat 4; TString]) (VStruct [VTime (Some 1700000000000000000); VInt f32qnan; VStr []])
-  = VStruct [VTime (Some 1700000000000000000); VInt f32qnan; VStr []] /\
-  gwf (TStruct [TTime; TFloat 4; TString]) (VStruct [VTime (Some 1700000000000000000); VInt f32qnan; VStr []]) = true.
-Proof. vm_compute. split; reflexivity. Qed.
+(* PARTIAL: re-encoding and second decode, whatever follows the re-encoding *)
+Theorem C03_partial_reencode : forall reg fuel t bs v rest al,
+  reg_desc_ok reg = true -> desc_ok t = true -> blen bs <= max_int32 ->
+  decode reg fuel t bs = Ok v rest al ->
+  grid v = true -> rwf reg t v = true ->
+  exists bs', encode reg t v = EOk bs' /\
+    forall fuel' rest', (length bs' < fuel')%nat -> exists al', decode reg fuel' t (bs' ++ rest') = Ok v rest' al'.
+Proof.
+  intros reg fuel t bs v rest al Hreg Ht Hs E Hg Hw.
+  destruct (C03_decoded_wf reg fuel t bs v rest al Hreg Ht Hs E) as [_ Hn]. specialize (Hn Hg).
+  destruct (roundtrip_all reg t v Hw 0%nat) as [bs' [E' _]]. exists bs'. split; [exact E'|].
+  intros fuel' rest' Hf. destruct (roundtrip_all reg t v Hw fuel') as [bs2 [E2 [_ D]]].
+  rewrite E' in E2. inversion E2; subst bs2. rewrite Hn in D. exact (D Hf rest').
+Qed.
+
+(* in the shape of the statement, at the generated registry *)
+Theorem C03_partial_generated : forall t bs v rest al, In t all_tys -> blen bs <= max_int32 ->
+  decode gen_reg (fuel_for bs) t bs = Ok v rest al -> grid v = true -> rwf gen_reg t v = true ->
+  exists bs' al', encode gen_reg t v = EOk bs' /\ decode gen_reg (fuel_for bs') t bs' = Ok v [] al'.
+Proof.
+  intros t bs v rest al Hin Hs E Hg Hw.
+  assert (Ht : desc_ok t = true).
+  { destruct C03_registry as [_ H]. rewrite forallb_forall in H. apply H. exact Hin. }
+  destruct (C03_partial_reencode gen_reg _ t bs v rest al (proj1 C03_registry) Ht Hs E Hg Hw) as [bs' [E' D]].
+  destruct (D (fuel_for bs') [] ltac:(unfold fuel_for; lia)) as [al' D']. rewrite app_nil_r in D'.
+  exists bs', al'. split; assumption.
+Qed.
+
+(* the hypotheses are satisfiable by real inputs: a Variant with the dimensions bit but not the array bit (mask 0x46,
+   non-canonical), an extension object of unknown type with a body, a DiagnosticInfo chain *)
+Example C03_nonvacuous :
+  let chk := fun t bs => match decode gen_reg (fuel_for bs) t bs with
+                         | Ok v _ _ => grid v && rwf gen_reg t v && desc_ok t
+                         | _ => false end in
+  chk (TCustom CVariant) [x46; x07; x00; x00; x00; x01; x02] = true /\
+  chk (TCustom CExtObj) [x01; x00; x39; x30; x01; x03; x00; x00; x00; x09; x09; x09] = true /\
+  chk (TCustom CDiagInfo) [x41; x05; x00; x00; x00; x00] = true /\
+  chk (TCustom CExtObj) empty_extobj_witness = false /\ chk TTime datetime_witness = false.
+Proof. vm_compute. repeat split; reflexivity. Qed.
 
 (* the repaired defects on the model: unknown-type extension object with a body (row 4), extension object with binary
    mask and empty body, Variant mask 0x46 (row 5; also with following bytes left alone), non-canonical masks *)
@@ -88,5 +149,9 @@ Proof. vm_compute. repeat split; reflexivity. Qed.
 
 Print Assumptions C03_refuted_datetime.
 Print Assumptions C03_datetime_unstable.
-Print Assumptions C03_partial_fixpoint.
+Print Assumptions C03_refuted_empty_extobj.
+Print Assumptions C03_registry.
+Print Assumptions C03_decoded_wf.
+Print Assumptions C03_partial_reencode.
+Print Assumptions C03_partial_generated.
 Print Assumptions C03_fixed_rows.
